@@ -179,17 +179,6 @@ fn known_class(e: &E, asg: &[Assign]) -> Option<&'static str> {
             }
         }
     }
-    // pending fix: (a-b)-c -> a+(b-c), (a/b)/c -> a*(b/c): needs two subtraction-like or two
-    // division nodes (rules never increase these counts)
-    let minus_like = count_nodes(e, &|s| {
-        matches!(s, E::Infix(_, Op::Minus, _)) || matches!(s, E::Prefix(true, _))
-    });
-    let slashes = count_nodes(e, &|s| matches!(s, E::Infix(_, Op::Slash, _)));
-    // (a / (b * c) is first rewritten to (a / b) / c, so a product counts like a division)
-    let stars = count_nodes(e, &|s| matches!(s, E::Infix(_, Op::Star, _)));
-    if minus_like >= 2 || (slashes >= 1 && slashes + stars >= 2) {
-        return Some("pending-fix-left-assoc-inverse");
-    }
     None
 }
 
@@ -333,9 +322,11 @@ fn main() {
     let y = || E::Var(1);
     let n = |v: f64| E::Num(v, 0.0);
     let corpus = vec![
-        E::infix(E::infix(x(), Op::Minus, y()), Op::Minus, y()), // left-assoc-inverse
+        E::infix(E::infix(x(), Op::Minus, y()), Op::Minus, y()), // left-assoc-inverse (fixed by 457ee28)
         E::infix(E::infix(x(), Op::Slash, n(2.0)), Op::Slash, n(4.0)),
         E::infix(E::infix(x(), Op::Slash, y()), Op::Slash, y()),
+        E::infix(n(-2.0), Op::Slash, E::infix(y(), Op::Star, y())),
+        E::infix(E::infix(n(1.0), Op::Plus, y()), Op::Slash, E::infix(y(), Op::Star, y())),
         E::infix(x(), Op::Slash, E::neg(y())), // c12-div-neg (fixed by a7df0c4)
         E::infix(E::neg(x()), Op::Slash, y()),
         E::infix(n(0.0), Op::Caret, n(0.0)), // zero-base-power
